@@ -623,3 +623,31 @@ Proof.
   exists (seq_tokens_flat B), evs, (2 * B + 1 + 0), [EStreamEnd], (1 + B), y.
   split; [apply HP|]. split; [apply HL|]. split; [lia|]. split; [exact HT|]. rewrite HW. lia.
 Qed.
+
+(* executable reachability, for examples *)
+Fixpoint run_steps (n : nat) (p : parser) (evs : list event) : option (parser * list event) :=
+  match n with
+  | O => Some (p, evs)
+  | S k =>
+      match p_state p with
+      | SEnd => None
+      | _ => match state_machine p with
+             | Parser.Ok ((e, _), p') => run_steps k p' (evs ++ [e])
+             | _ => None
+             end
+      end
+  end.
+
+Lemma run_steps_reach p0 n : forall p evs p' evs',
+  reach p0 p evs -> run_steps n p evs = Some (p', evs') -> reach p0 p' evs'.
+Proof.
+  induction n as [|n IH]; intros p evs p' evs' HR H.
+  - cbn in H. inversion H; subst. exact HR.
+  - cbn [run_steps] in H.
+    assert (HNE : p_state p <> SEnd -> reach p0 p' evs').
+    { intros HNE. destruct (state_machine p) as [[[e sp] q]|?|?] eqn:E.
+      - destruct (p_state p) eqn:ES; try (eapply IH; [eapply reach_step; [eassumption|congruence|eassumption]|exact H]). discriminate.
+      - destruct (p_state p); discriminate.
+      - destruct (p_state p); discriminate. }
+    destruct (p_state p) eqn:ES; first [apply HNE; discriminate | discriminate].
+Qed.
